@@ -168,6 +168,7 @@ impl<T: Elem + SatisfyTraits<Tr>, M: MX, Tr: TrX + ?Sized> World<T, M, Tr> {
     pub fn do_wrong_push_insert(&mut self, src: Src, at: Option<usize>, ty: u8, out: &mut Out) {
         let a = &mut self.a;
         let before_snap = snap::<T, Tr, M>(a);
+        let cap_before = a.capacity();
         macro_rules! offer { ($x:ty, $mk:expr) => {{
             if TypeId::of::<$x>() == TypeId::of::<T>() { out.outcome.push_str("n/a"); return; }
             match src {
@@ -190,6 +191,7 @@ impl<T: Elem + SatisfyTraits<Tr>, M: MX, Tr: TrX + ?Sized> World<T, M, Tr> {
             Ok(()) => out.fail(Class::Type, "wrong-type-admitted", format!("push/insert accepted a value of wrong type #{ty} into a vector of {}", T::NAME)),
         }
         if snap::<T, Tr, M>(&self.a) != before_snap { out.fail(Class::Type, "changed-by-rejected", "vector changed although the value was rejected".into()); }
+        if self.a.capacity() != cap_before { out.fail(Class::Type, "changed-by-rejected", format!("a rejected value changed the capacity from {cap_before} to {}", self.a.capacity())); }
         if ty == 4 {
             let wx = elem::with_reg(|r| (r.creates, r.drops));
             if T::HAS_DROP && (wx.1 - wx_before.1) != 1 { out.fail(Class::Own, "rejected-value-drops", format!("rejected value destroyed {} times (want exactly once)", wx.1 - wx_before.1)); }
